@@ -3,6 +3,7 @@ package prop
 import (
 	"bytes"
 	"fmt"
+	"io"
 	"math/rand"
 
 	"github.com/biogo/hts/bgzf"
@@ -49,11 +50,70 @@ func c02Plan(seed int64, tier string) []core.Case {
 		}
 		cs = append(cs, c)
 	}
+	// seek-storm: hundreds of thousands of Seeks to random block starts as
+	// fast as possible with deep read-ahead, so that redirections of the
+	// read-ahead goroutine meet it in every phase of its loop; a call that
+	// never returns shows as a runtime-detected deadlock (plain build).
+	nst := 8
+	if tier == "thorough" {
+		nst = 64
+	}
+	for i := 0; i < nst; i++ {
+		cs = append(cs, core.Case{Kind: "seek-storm", Seed: core.SubSeed(seed, "c02storm", i), P: map[string]int64{
+			"rd": []int64{4, 8, 16, 32}[i%4], "n": 150000, "procs": []int64{0, 0, 2, 4}[(i/4)%4]}})
+	}
 	return cs
+}
+
+func c02Storm(r *core.Result, c core.Case) *core.Result {
+	rng := c.Rng()
+	f := gen.RandFile(rng, gen.FileOpts{MaxBlocks: 24, SmallOnly: true, NoEmpty: true})
+	rd, n := c.Int("rd"), c.Int("n")
+	cfg := fmt.Sprintf("seek-storm rd=%d seeks=%d procs=%d blocks=%d", rd, n, c.Int("procs"), len(f.Blocks))
+	r.FP = core.Hash(cfg, len(f.Bytes))
+	r.Sample = map[string]any{"config": cfg}
+	var data []int
+	for i, b := range f.Blocks {
+		if b.Len > 0 {
+			data = append(data, i)
+		}
+	}
+	if len(data) < 3 {
+		return r
+	}
+	r.Nontrivial = true
+	withProcs(c.Int("procs"), func() {
+		rr, err := bgzf.NewReader(bytes.NewReader(f.Bytes), rd)
+		if err != nil {
+			r.Violate("reader|new", "%s: %v", cfg, err)
+			return
+		}
+		defer rr.Close()
+		buf := make([]byte, 16)
+		for i := 0; i < n; i++ {
+			b := f.Blocks[data[rng.Intn(len(data))]]
+			if err := rr.Seek(bgzf.Offset{File: b.Base}); err != nil {
+				r.Violate("storm|seek-error", "%s: Seek number %d to block base %d: %v", cfg, i, b.Base, err)
+				return
+			}
+			if i%61 == 0 {
+				k, err := rr.Read(buf[:1+rng.Intn(15)])
+				if err != nil && err != io.EOF || !bytes.Equal(buf[:k], f.Flat[b.Start:b.Start+int64(k)]) {
+					r.Violate("storm|wrong-bytes", "%s: after Seek number %d to block base %d Read returned (%d, %v) and bytes that differ from the flat data", cfg, i, b.Base, k, err)
+					return
+				}
+			}
+		}
+		r.Count("storm_seeks", int64(n))
+	})
+	return r
 }
 
 func c02Run(c core.Case) *core.Result {
 	r := core.NewResult()
+	if c.Kind == "seek-storm" {
+		return c02Storm(r, c)
+	}
 	rng := c.Rng()
 	f := gen.RandFile(rng, gen.FileOpts{MaxBlocks: 14, SmallOnly: c.Int("big") == 0, ExtraField: true, MaxMember: true})
 	rd := c.Int("rd")
